@@ -114,7 +114,12 @@ Section TopicCorrect.
     - cbn [suffixes map]. rewrite (tm_word_unfold p ps (w :: ws)) by assumption.
       destruct ws as [|w' ws'].
       + cbn [suffixes map row_word]. rewrite tm_word_unfold by assumption. rewrite andb_comm. reflexivity.
-      + cbn [suffixes map] in IH |- *. cbn [row_word]. Show. rewrite IH. rewrite andb_comm. reflexivity.
+      + cbn [suffixes map] in IH |- *.
+        change (row_word A eqb star p (w :: w' :: ws')
+                  (tm ps (w :: w' :: ws') :: tm ps (w' :: ws') :: map (tm ps) (suffixes ws')))
+          with ((tm ps (w' :: ws') && (eqb p star || eqb p w))
+                  :: row_word A eqb star p (w' :: ws') (tm ps (w' :: ws') :: map (tm ps) (suffixes ws'))).
+        rewrite IH. rewrite andb_comm. reflexivity.
   Qed.
 
   Lemma rows_spec : forall pat ws,
